@@ -736,6 +736,14 @@ func verifC15Case(line string) (out string) {
 			n = want
 		}
 		return fmt.Sprintf("lists=%d", n)
+	case f[0] == "rc" && len(f) == 2 && (f[1] == "0" || f[1] == "1"):
+		wp := verifC15NewPool(ex)
+		if f[1] == "1" {
+			verifC15AddWorker(wp, 1, 1, StateBooting, IdleBehaviorRun, nil, nil, nil)
+		}
+		// what TagVerifier.VerifyHostKey calls once the SSH connection to the instance is verified
+		wp.reportSSHConnected(&verifC15Inst{id: 1})
+		return "ok"
 	case f[0] == "o1" && len(f) == 2:
 		ex.gated, ex.arrived = true, map[int][]chan struct{}{}
 		ex.bootOk, ex.listOk = true, true
